@@ -1,2 +1,181 @@
 //! Reference models (plain f64, deliberately boring).
 #![allow(dead_code)]
+
+/// Deterministic 64-bit LCG / splitmix used to build *fixed* structured input families
+/// (verdict-irrelevant pseudo-randomness: every member is enumerated, none is sampled at run time).
+#[derive(Clone)]
+pub struct Lcg(pub u64);
+impl Lcg {
+    pub fn new(seed: u64) -> Self {
+        Lcg(seed.wrapping_mul(0x9E3779B97F4A7C15).wrapping_add(0x1234567))
+    }
+    pub fn next_u64(&mut self) -> u64 {
+        // splitmix64
+        self.0 = self.0.wrapping_add(0x9E3779B97F4A7C15);
+        let mut z = self.0;
+        z = (z ^ (z >> 30)).wrapping_mul(0xBF58476D1CE4E5B9);
+        z = (z ^ (z >> 27)).wrapping_mul(0x94D049BB133111EB);
+        z ^ (z >> 31)
+    }
+    /// uniform in (0,1)
+    pub fn unif(&mut self) -> f64 {
+        ((self.next_u64() >> 11) as f64 + 0.5) / (1u64 << 53) as f64
+    }
+    /// standard normal (Box-Muller)
+    pub fn normal(&mut self) -> f64 {
+        let u1 = self.unif();
+        let u2 = self.unif();
+        (-2.0 * u1.ln()).sqrt() * (2.0 * std::f64::consts::PI * u2).cos()
+    }
+    pub fn below(&mut self, n: u64) -> u64 {
+        self.next_u64() % n
+    }
+}
+
+/// Sample array [chains][draws][params] (f32 values held as f32 — the type the diagnostics take).
+pub type Arr3 = Vec<Vec<Vec<f32>>>;
+
+pub fn arr3_dims(a: &Arr3) -> (usize, usize, usize) {
+    let c = a.len();
+    let n = if c > 0 { a[0].len() } else { 0 };
+    let p = if n > 0 { a[0][0].len() } else { 0 };
+    (c, n, p)
+}
+
+/// The 2c half-chains of parameter `p` (first half, last half; an odd middle draw is dropped).
+pub fn half_chains(a: &Arr3, p: usize) -> Vec<Vec<f64>> {
+    let (c, n, _) = arr3_dims(a);
+    let half = n / 2;
+    let mut out = Vec::with_capacity(2 * c);
+    for ch in a.iter() {
+        out.push(ch[..half].iter().map(|r| r[p] as f64).collect());
+    }
+    for ch in a.iter() {
+        out.push(ch[n - half..].iter().map(|r| r[p] as f64).collect());
+    }
+    out
+}
+
+#[derive(Clone, Copy, Debug)]
+pub struct SplitStats {
+    pub w: f64,
+    pub b: f64,
+    pub varplus: f64,
+    pub rhat: f64,
+    pub n: usize,
+    pub m: usize,
+    /// max |half-chain mean| / sqrt(W): conditioning of an f32 evaluation
+    pub cond: f64,
+}
+
+/// Split R-hat ingredients of one parameter; `ddof` is the divisor convention of the within-half
+/// variance (0: divide by n, 1: divide by n-1) — the statement leaves it open.
+pub fn split_stats(halves: &[Vec<f64>], ddof: usize) -> SplitStats {
+    let m = halves.len();
+    let n = halves[0].len();
+    let means: Vec<f64> = halves.iter().map(|h| h.iter().sum::<f64>() / n as f64).collect();
+    let vars: Vec<f64> = halves
+        .iter()
+        .zip(means.iter())
+        .map(|(h, mu)| h.iter().map(|x| (x - mu) * (x - mu)).sum::<f64>() / (n - ddof) as f64)
+        .collect();
+    let w = vars.iter().sum::<f64>() / m as f64;
+    let gm = means.iter().sum::<f64>() / m as f64;
+    let b = n as f64 / (m as f64 - 1.0) * means.iter().map(|x| (x - gm) * (x - gm)).sum::<f64>();
+    let varplus = (n as f64 - 1.0) / n as f64 * w + b / n as f64;
+    let maxmean = means.iter().fold(0.0f64, |a, x| a.max(x.abs()));
+    SplitStats { w, b, varplus, rhat: (varplus / w).sqrt(), n, m, cond: maxmean / w.sqrt() }
+}
+
+/// Biased (divisor n) autocovariance of one series at all lags, direct O(n^2).
+pub fn autocov_direct(x: &[f64]) -> Vec<f64> {
+    let n = x.len();
+    let mu = x.iter().sum::<f64>() / n as f64;
+    let c: Vec<f64> = x.iter().map(|v| v - mu).collect();
+    (0..n)
+        .map(|lag| (0..n - lag).map(|t| c[t] * c[t + lag]).sum::<f64>() / n as f64)
+        .collect()
+}
+
+/// Result of the reference ESS. Geyer's cut `P_k <= 0` is discontinuous, so the reference returns a
+/// *set* of admissible (tau, slack) candidates: one for the definitive cut (first pair sum below
+/// -margin, or the end of the sequence) and one for every earlier pair sum inside (-margin, margin).
+/// After a pair inside the margin the monotone clamp bounds every later term by `margin`, so
+/// "cut there" with slack 2*margin*(remaining pairs) covers both resolutions of that cut.
+#[derive(Clone, Debug)]
+pub struct EssRef {
+    pub cands: Vec<(f64, f64)>,
+    pub mn: f64,
+    pub n_pairs_summed: usize,
+    pub ambiguous: bool,
+}
+
+/// Stan-style multi-chain ESS as the statement defines it:
+/// rho_t = 1 - (W - mean_j acov_j(t)) / var+ ; P_k = rho_2k + rho_2k+1 ; initial positive, monotone;
+/// tau = -1 + 2 sum P_k ; ESS = m n / tau.   `ddof` as in `split_stats` (acov rescaled consistently).
+pub fn ess_ref(halves: &[Vec<f64>], ddof: usize, margin: f64) -> EssRef {
+    let st = split_stats(halves, ddof);
+    let m = halves.len();
+    let n = halves[0].len();
+    let mut avg = vec![0.0f64; n];
+    for h in halves {
+        let ac = autocov_direct(h);
+        for t in 0..n {
+            avg[t] += ac[t] / m as f64;
+        }
+    }
+    let scale = if ddof == 1 { n as f64 / (n as f64 - 1.0) } else { 1.0 };
+    let rho: Vec<f64> = avg.iter().map(|a| 1.0 - (st.w - a * scale) / st.varplus).collect();
+    let mut pairs = vec![];
+    let mut t = 0;
+    while t + 1 < n {
+        pairs.push(rho[t] + rho[t + 1]);
+        t += 2;
+    }
+    let kk = pairs.len();
+    let tau_cut_at = |k: usize| -> f64 {
+        let mut minp = if !pairs.is_empty() { pairs[0] } else { 0.0 };
+        let mut out = 0.0;
+        for p in pairs.iter().take(k) {
+            let mut pt = *p;
+            if pt > minp {
+                pt = minp;
+            }
+            minp = pt;
+            out += pt;
+        }
+        -1.0 + 2.0 * out
+    };
+    let mut cands = vec![];
+    let mut ambiguous = false;
+    let mut end = kk;
+    for (k, p) in pairs.iter().enumerate() {
+        if p.abs() < margin {
+            ambiguous = true;
+            cands.push((tau_cut_at(k), 2.0 * margin * (kk - k) as f64 + 2.0 * margin));
+            continue;
+        }
+        if *p <= 0.0 {
+            end = k;
+            break;
+        }
+    }
+    cands.push((tau_cut_at(end), 0.0));
+    EssRef { cands, mn: (m * n) as f64, n_pairs_summed: end, ambiguous }
+}
+
+/// Order statistics helpers for summary checks.
+pub fn sorted(v: &[f64]) -> Vec<f64> {
+    let mut s = v.to_vec();
+    s.sort_by(|a, b| a.partial_cmp(b).unwrap());
+    s
+}
+
+pub fn mean(v: &[f64]) -> f64 {
+    v.iter().sum::<f64>() / v.len() as f64
+}
+
+pub fn std1(v: &[f64]) -> f64 {
+    let m = mean(v);
+    (v.iter().map(|x| (x - m) * (x - m)).sum::<f64>() / (v.len() as f64 - 1.0)).sqrt()
+}
